@@ -52,6 +52,10 @@ ROBUST = ["CREATE TABLE tempdb..t (a int);", "DROP TABLE db..t;", "CREATE TABLE 
           "CREATE TABLE t (a int, b varchar(9) DEFAULT N'x' NOT NULL);", "CREATE TABLE t (a int, b bit(1) DEFAULT b'0');",
           "CREATE TABLE t (a int, b numeric(10,2) DEFAULT -1.5 NOT NULL);", "CREATE TABLE t (a int DEFAULT ((0)), b int);",
           "ALTER TABLE t1 ALTER COLUMN a SET DEFAULT nextval('s.q'::regclass);", "CREATE INDEX i1 ON t1 USING btree (a);",
+          # a trailing word the grammar does not know after the table body / after a table-level constraint (SQLite STRICT, Oracle ENABLE ...)
+          "CREATE TABLE t (a int, b int, PRIMARY KEY (a)) STRICT;", "CREATE TABLE t (a int, b int, CONSTRAINT pk PRIMARY KEY (a) ENABLE);",
+          "CREATE TABLE t (a int, b int, UNIQUE (a, b) ENABLE);", "CREATE TABLE t (a int, b int, FOREIGN KEY (a) REFERENCES o (id) ENABLE);",
+          "CREATE TABLE t (a int, b int) NOLOGGING;",
           "CREATE TABLE [dbo].[Order Details] ([Order ID] int);", "CREATE TABLE t (a int, b int) WITH (fillfactor=70);"]
 BAD_MODES = ["", "SQL", "Hql", "postgresql", "none", "bigquery ", "sql\n",
              # fragments and combinations of valid names
